@@ -122,6 +122,14 @@ func aLabel(u string) string {
 var idnLetters = []rune("абвгдежзиклмнопрстуфхцчшщыэюяёїєґ" + "αβγδεζηθικλμνξοπρστυφχψωάέήίόύώ" + "äöüéèêëàâáãåçñóòôõúùûíìîýÿøæœšžčřěůőű" + "ąćęłńśźż")
 var caselessLetters = []rune("日本語例え漢字中文한국어テスト" + "ßςǰ")
 var asciiLower = []rune("abcdefghijklmnopqrstuvwxyz")
+
+// lower-case forms of cased characters whose cased counterpart is NOT in general category Lu:
+// title-case digraphs (Lt), Greek letters with ypogegrammeni whose capital is Lt, small Roman
+// numerals (Nl) and circled letters (So). unicode.IsUpper is false for all their counterparts, so a
+// normaliser that looks for "an upper-case letter" before lower-casing never sees them. Local parts
+// only: IDNA disallows or maps most of them in domains.
+var nonLuCasedLower = []rune("\u01c6\u01c9\u01cc\u01f3" + "\u1f80\u1f87\u1f90\u1fa0\u1fb3\u1fc3\u1ff3" + "\u2170\u2173\u217b\u217f" + "\u24d0\u24d4\u24e9")
+var caselessOrNonLu = append(append([]rune{}, caselessLetters...), nonLuCasedLower...)
 var digits = []rune("0123456789")
 
 var hostileTokens = []string{
@@ -305,13 +313,16 @@ func genValid(p *prng.R) validAddr {
 			case 0:
 				rs = append(rs, prng.Pick(p, asciiLower))
 			case 1:
-				rs = append(rs, prng.Pick(p, caselessLetters))
+				rs = append(rs, prng.Pick(p, caselessOrNonLu))
 			default:
 				rs = append(rs, prng.Pick(p, idnLetters))
 			}
 		}
 		v.local = norm.NFC.String(string(rs))
 		feats["Lutf8"] = true
+		if nonLuFlip(v.local, nil) != v.local {
+			feats["LnonLu"] = true
+		}
 	case 4: // letter + combining mark
 		base := prng.Pick(p, []rune("aeioucnszjkg"))
 		mark := prng.Pick(p, []rune{0x301, 0x30c, 0x308, 0x323, 0x307})
@@ -387,6 +398,21 @@ func caseFlip(p *prng.R, s string, all bool) string {
 	return string(rs)
 }
 
+// nonLuFlip replaces (all, or the ones selected by p) runes by their title-case counterpart when
+// that counterpart is not in category Lu and maps back under unicode.ToLower; every other rune -
+// in particular every letter with an ordinary capital - stays as it is, so the result contains no
+// Lu letter that the base did not contain.
+func nonLuFlip(s string, p *prng.R) string {
+	rs := []rune(s)
+	for i, r := range rs {
+		t := unicode.ToTitle(r)
+		if t != r && !unicode.IsUpper(t) && unicode.ToLower(t) == r && norm.NFC.IsNormalString(string(t)) && (p == nil || p.Bool()) {
+			rs[i] = t
+		}
+	}
+	return string(rs)
+}
+
 func (v validAddr) base() string { return v.local + "@" + strings.Join(v.labels, ".") }
 
 // spellings returns variants that are, by construction, spellings of the same address.
@@ -417,6 +443,13 @@ func (v validAddr) spellings(p *prng.R) (out []string, kinds []string) {
 	add("local-nfd-then-upper", caseFlip(p, norm.NFD.String(v.local), true), uDom)
 	add("local-nfd-then-mixed", caseFlip(p, norm.NFD.String(v.local), false), uDom)
 	add("both", norm.NFD.String(caseFlip(p, v.local, false)), strings.ToUpper(aDom))
+	if f := nonLuFlip(v.local, nil); f != v.local {
+		// cased counterparts outside Lu only; drawn from a stream of its own so that the spellings above stay as they were
+		q := prng.New(uint64(len(v.local))*1315423911+uint64(len(uDom)), uint64([]rune(v.local)[0]), "c17-nonlu")
+		add("local-nonlu-cased", f, uDom)
+		add("local-nonlu-cased-mixed", nonLuFlip(v.local, q), uDom)
+		add("local-nonlu-cased-nfd", norm.NFD.String(f), uDom)
+	}
 	return
 }
 
@@ -623,6 +656,9 @@ func TestVerif(t *testing.T) {
 						fail("one-key-per-class/"+kinds[j], witnessFeature(s), fmt.Sprintf("spelling %q (%s) of %q has key %q (err %v), base key %q", s, kinds[j], base, k, err, key), map[string]any{"base": base, "spelling": s, "kind": kinds[j], "key": k, "base_key": key})
 					}
 					law("one-key-per-class/"+kinds[j], feat)
+					if strings.HasPrefix(kinds[j], "local-nonlu-cased") {
+						r.Count("nonlu_cased_spellings_checked", 1)
+					}
 					if !address.Equal(s, base) || !address.Equal(base, s) {
 						fail("equal-within-class/"+kinds[j], witnessFeature(s), fmt.Sprintf("Equal(%q,%q) is false for spellings of one address", s, base), map[string]any{"base": base, "spelling": s})
 					}
